@@ -427,6 +427,19 @@ func (comp *Compiler) validateRangeBoundaries(
 // The reference will be of the form [prefix:]name
 // It is an implicit reference to the local module when the optional
 // [prefix:] is absent
+// owningModule returns the module a (sub)module root node belongs to: the
+// node itself for a module, the belongs-to module for a submodule.
+func (c *Compiler) owningModule(root parse.Node) parse.Node {
+	if root != nil && root.Type() == parse.NodeSubmodule {
+		if bt := root.ChildByType(parse.NodeBelongsTo); bt != nil {
+			if mod, ok := c.modules[bt.Name()]; ok {
+				return mod.GetModule()
+			}
+		}
+	}
+	return root
+}
+
 func (c *Compiler) getModuleAndReference(m, n parse.Node, targetType parse.NodeType) (parse.Node, parse.Node) {
 	// Assume an implicit local module reference until
 	// we learn otherwise.
